@@ -295,6 +295,145 @@ def make_cells(tier):
                 cells.append(Cell("%s/sparse_%s_n%d" % (kind, pat, n), sp_case(), check_sp, lambda c: True, None, quick=25, thorough=400,
                                   build=lambda kind=kind, n=n, pat=pat: sparse_fact_fn(kind, n, pat).build()))
 
+    # ---- factorizations of badly scaled SPD matrices (mixed units: P = S C S with S = diag(2^k)): the routines use no
+    #      pivoting and are scale invariant, so the reconstruction error relative to sqrt(P_ii P_jj) must stay at round-off
+    for kind in ("ldl", "udu"):
+        for n in (2, 3, 5):
+            @st.composite
+            def scaled_spd(draw, n=n):
+                A = np.array(draw(dense(n, n, scales=(0,))))
+                eps = 10.0 ** draw(gens.fl(-2.0, 0.0))
+                C = A @ A.T + eps * (1 + np.max(np.abs(A)) ** 2) * np.eye(n)
+                common = draw(st.sampled_from([0, 0, -20, -34, -44, 13]))
+                k = [common + (draw(st.integers(-20, 5)) if draw(st.booleans()) else 0) for _ in range(n)]
+                return {"C": C.tolist(), "k": k}
+
+            def check_scaled(case, kind=kind, n=n):
+                C = np.array(case["C"], float)
+                C = (C + C.T) / 2
+                require(all(-80 <= k <= 40 for k in case["k"]) and np.all(np.linalg.eigvalsh(C) > 1e-6 * np.max(np.abs(C))))
+                S = np.diag([2.0 ** k for k in case["k"]])
+                P = S @ C @ S
+                A, D = fact_fn(kind, n)(P)
+                A, D = np.atleast_2d(A), np.atleast_2d(D)
+                if not (np.all(np.isfinite(A)) and np.all(np.isfinite(D))):
+                    raise Violation("%s(n=%d) on a scaled SPD matrix: non-finite factors" % (kind, n), **case)
+                Si = np.diag([2.0 ** -k for k in case["k"]])
+                err = Si @ (A @ D @ A.T - P) @ Si  # error in the units of C (exact rescaling: powers of two)
+                tol = 1e-12 * float(np.max(np.abs(C))) * float(np.linalg.cond(C))
+                if float(np.max(np.abs(err))) > tol:
+                    raise Violation("%s(n=%d): reconstruction of P = S C S (S = diag 2^k) is off by %.3e relative to the scaling "
+                                    "(tol %.1e)" % (kind, n, np.max(np.abs(err)), tol), P=P.tolist(), **case)
+
+            cells.append(Cell("%s/scaled_n%d" % (kind, n), scaled_spd(), check_scaled, lambda c: len(set(c["k"])) > 1 or min(c["k"]) < -10,
+                              lambda c: ["tiny-pivots" if min(c["k"]) <= -15 else "moderate"], quick=60, thorough=1000,
+                              build=lambda kind=kind, n=n: fact_fn(kind, n).build()))
+
+    # ---- measurement update with an accurate measurement (|Rs| << |H W|): the square-root form must keep the small
+    #      posterior variance of the measured combination to relative accuracy (oracle: 50-digit arithmetic)
+    import mpmath as mp
+    for n, m in ((3, 1), (4, 2), (6, 3)):
+        @st.composite
+        def acc_case(draw, n=n, m=m):
+            return {"W": draw(lower_tri(n, 0.3, 3.0)), "H": draw(dense(m, n, scales=(0,))), "Rs": draw(lower_tri(m, 0.5, 2.0)),
+                    "r": 10.0 ** draw(st.sampled_from([-1, -3, -4, -5, -6, -7, -8, -9]))}
+
+        def check_acc(case, n=n, m=m):
+            W, H = np.array(case["W"], float), np.array(case["H"], float)
+            require(1e-10 <= case["r"] <= 1.0)
+            Rs = np.array(case["Rs"], float) * case["r"]
+            HW = H @ W
+            require(float(np.linalg.cond(HW @ HW.T)) < 1e6)
+            Wp, K, Ss = correct_fn(n, m)(Rs, H, W)
+            if not (np.all(np.isfinite(Wp)) and np.all(np.isfinite(K)) and np.all(np.isfinite(Ss))):
+                raise Violation("sqrt_correct(n=%d,m=%d): non-finite result with an accurate measurement (|Rs| = %.0e |H W|)" % (n, m, case["r"]), **case)
+            mp.mp.dps = 50
+            mW, mH, mR = mp.matrix(W.tolist()), mp.matrix(H.tolist()), mp.matrix(Rs.tolist())
+            mP = mW * mW.T
+            mS = mH * mP * mH.T + mR * mR.T
+            mPp = mP - mP * mH.T * mp.inverse(mS) * mH * mP
+            want = np.array((mH * mPp * mH.T).tolist(), dtype=float)  # = R - R S^-1 R, of the size of R
+            HWp = H @ Wp  # small (of the size of Rs): formed first, H (W+ W+^T) H^T would cancel catastrophically
+            got = HWp @ HWp.T
+            sc = float(np.max(np.abs(want)))
+            # round-off of the harness's own product H W+ (entries of size |H||W+|, result of size sqrt(sc))
+            own = 1e-13 * n * float(np.max(np.abs(H))) * float(np.max(np.abs(Wp))) * math.sqrt(sc)
+            tol = 1e-9 * float(np.linalg.cond(Rs)) * sc + own
+            if float(np.max(np.abs(got - want))) > tol:
+                raise Violation("sqrt_correct(n=%d,m=%d): posterior covariance of the measured combination H P+ H^T is off by %.3e "
+                                "relative (|Rs| = %.0e |H W|; 50-digit reference; tolerance %.1e)" % (
+                                    n, m, np.max(np.abs(got - want)) / sc, case["r"], tol / sc), **case)
+
+        cells.append(Cell("correct/accurate_n%d_m%d" % (n, m), acc_case(), check_acc, lambda c: c["r"] <= 1e-3,
+                          lambda c: ["r=%.0e" % c["r"]], quick=80, thorough=1500, build=lambda n=n, m=m: correct_fn(n, m).build()))
+
+    # ---- call histories of sqrt_covariance_predict in one process: the derivation is redone for every call, so a call
+    #      must not depend on the sparsity patterns of earlier calls with the same dimension (module state reset per case)
+    PATS = ("dense", "diagQ", "sparseF", "diagF_diagQ", "bandW")
+
+    @st.composite
+    def hist_case(draw):
+        n = draw(st.integers(2, 5))
+        calls = []
+        for _ in range(draw(st.integers(2, 3))):
+            calls.append({"pat": draw(st.sampled_from(PATS)), "W": draw(lower_tri(n)), "F": draw(dense(n, n, scales=(0,))), "Q": draw(psd(n))})
+        return {"n": n, "calls": calls}
+
+    def check_hist(case):
+        import importlib
+        n = case["n"]
+        require(2 <= n <= 6)
+        u = importlib.reload(util())
+        for ci, c in enumerate(case["calls"]):
+            W, F, Q = (np.array(c[k], float) for k in ("W", "F", "Q"))
+            pat = c["pat"]
+            mW = np.tril(np.ones((n, n)))
+            mF = np.ones((n, n))
+            mQ = np.ones((n, n))
+            if pat in ("diagQ", "diagF_diagQ"):
+                mQ = np.eye(n)
+            if pat == "sparseF":
+                mF = np.triu(np.ones((n, n)), 1) + np.eye(n)
+                mF[n - 1, 0] = 1
+            if pat == "diagF_diagQ":
+                mF = np.eye(n)
+            if pat == "bandW":
+                mW = np.tril(np.ones((n, n))) - np.tril(np.ones((n, n)), -2)
+            W, F, Q = W * mW, F * mF, (Q + Q.T) / 2 * mQ
+            require(abs(np.linalg.det(W)) > 1e-6)
+
+            def sym(nm, mask):
+                r, cc = np.nonzero(mask)
+                return ca.SX.sym(nm, ca.Sparsity.triplet(n, n, [int(i) for i in r], [int(j) for j in cc]))
+
+            sW, sF, sQ = sym("W", mW), sym("F", mF), sym("Q", mQ)
+            with cy.quiet():
+                out = u.sqrt_covariance_predict(sW, sF, sQ)
+                f = ca.Function("f", [sW, sF, sQ], [ca.densify(out)])
+
+            def dm(M, sx):
+                return ca.DM(sx.sparsity(), [float(M[i, j]) for (i, j) in zip(*sx.sparsity().get_triplet())][:sx.nnz()])
+
+            # nonzeros in casadi (column-major) order
+            def dmv(M, sx):
+                sp = sx.sparsity()
+                rows, cols = sp.get_triplet()
+                return ca.DM(sp, [float(M[r_, c_]) for r_, c_ in zip(rows, cols)])
+
+            Wd = np.array(f(dmv(W, sW), dmv(F, sF), dmv(Q, sQ)), float)
+            if not np.all(np.isfinite(Wd)):
+                raise Violation("sqrt_covariance_predict call %d (%s, n=%d) of a history: non-finite W'" % (ci, pat, n), **case)
+            P = W @ W.T
+            cond = float(np.linalg.cond(W))
+            sc = (1 + np.max(np.abs(F))) * (1 + np.max(np.abs(P))) + np.max(np.abs(Q)) + float(np.max(np.abs(Wd)))
+            tri_check(Wd, "sqrt_covariance_predict call %d (%s, n=%d) of a history: W'" % (ci, pat, n), 1e-11 * sc * cond, **case)
+            L.close(Wd @ W.T + W @ Wd.T, F @ P + P @ F.T + Q,
+                    "sqrt_covariance_predict call %d (%s, n=%d) after %s: W'W^T + W W'^T vs F P + P F^T + Q" % (
+                        ci, pat, n, [x["pat"] for x in case["calls"][:ci]]), atol=1e-10 * sc * cond, rtol=0, **case)
+
+    cells.append(Cell("predict/history", hist_case(), check_hist, lambda c: len({x["pat"] for x in c["calls"]}) > 1,
+                      lambda c: ["first:" + c["calls"][0]["pat"]], quick=60, thorough=800))
+
     # ---- rk4: exact for fields that are cubic polynomials in time
     dy = st.integers(-64, 64).map(lambda k: k / 16.0)
 
